@@ -201,7 +201,8 @@ def case_C15(seed):
     a, b = res
     viol = []
     knife = 0
-    if a['idx'] != b['idx'] or (a['best'] is not None and not close(a['best'], b['best'], 2e-3, 1e-6)):
+    # log-probabilities: 1e-3 absolute (a relative 1e-3 on the probability itself) + 2e-3 relative
+    if a['idx'] != b['idx'] or (a['best'] is not None and not close(a['best'], b['best'], 2e-3, 1e-3)):
         # knife edge: a discrete penalty decision (ti comparison / projection exactly on an end point) within margin
         if knife_edge_ti(g_xy, tr_xy):
             knife = 1
